@@ -36,8 +36,8 @@ def run(ctx):
                 "distinct by scenario id x variant")
     ctx.assumptions += ["device model is causal and echoes input; outputs obey Text!PreOut (no proper prefix looks like a prompt, depth > longest line + prompt)",
                         "cuts never fall inside an escape sequence; read size >= 8 whenever outputs contain escape sequences"]
-    if ctx.replay:
-        rp = json.load(open(ctx.replay))["scenario"]
+    rp = json.load(open(ctx.replay))["scenario"] if ctx.replay else None
+    if rp is not None and rp.get("kind") not in ("kernel", "model"):
         res = ctx.run_harness("c01", [rp])
         for r in res:
             ctx.count()
@@ -58,6 +58,19 @@ def run(ctx):
     if r["violated"]:
         ctx.violation("C01:model:EarlyEcho-not-exact", "the named deviation Text!EarlyEcho no longer explains every misalignment of the model:\n" + r["stdout"][-1500:],
                       {"kind": "model", "cfg": "MCChannelEarly"})
+    # 1b. kernel conformance: the abstract matchers of Text.tla against the public Go functions on every short string
+    KCFG = "SPECIFICATION Spec\nCONSTANTS Mode = \"%s\"\n MaxLen = %d\nCONSTRAINT Emit\nCHECK_DEADLOCK FALSE\n"
+    for mode, ml in (("unary", 6 if thorough else 5), ("binary", 6 if thorough else 5)):
+        rk = ctx.tlc("TextKernel", cfg="k.cfg", files={"k.cfg": KCFG % (mode, ml)}, workers=8, timeout=1800)
+        resk = ctx.run_harness("kernel", rk["scn"], timeout=1800)
+        summ = [x for x in resk if x.get("summary")]
+        if not summ or summ[0]["n"] != len(rk["scn"]):
+            raise ToolError("kernel conformance did not process all %d cases" % len(rk["scn"]))
+        ctx.count(summ[0]["n"])
+        ctx.notes["kernel_cases_" + mode] = summ[0]["n"]
+        for x in resk:
+            if not x.get("summary"):
+                ctx.violation(x["sig"], x["detail"], {"kind": "kernel", "mode": mode})
     # 2. scenarios
     count = 2500 if thorough else 260
     r = ctx.tlc("ChannelScn", cfg="scn.cfg", files={"scn.cfg": SCN % (ctx.seed, count)}, workers=1)
